@@ -39,13 +39,87 @@ def spaces(ctx):
         return {"V_leaf<=3": gen.sample(leaf, 4000, ctx.seed), "V_cont<=3": gen.sample(cont3, 4000, ctx.seed + 1), "V_cont=4": gen.sample(cont4, 3000, ctx.seed + 2), "V_cont+<=2": more, "code-spans": codes,
                 "emphasis-runs(6)": gen.sample(em, 4000, ctx.seed + 3), "emphasis-in-blocks<=3": gen.sample(emb, 3000, ctx.seed + 4), "numeric-references<=2": refd}
     return {"V_leaf<=3": leaf, "V_cont<=3": cont3, "V_cont=4": cont4, "V_cont+<=2": more, "code-spans": codes, "emphasis-runs(6)": em, "emphasis-in-blocks<=3": emb, "numeric-references<=2": refd}
+
+
+def _enc_call(strs):
+    from pymarkdown.links.link_parse_helper import LinkParseHelper
+    f = getattr(LinkParseHelper, "_LinkParseHelper__encode_link_destination")
+    out = []
+    for s in strs:
+        try:
+            out.append(f(s))
+        except BaseException as e:  # noqa
+            out.append("EXC:" + type(e).__name__)
+    return out
+
+
+def _mdit_norm(s):
+    try:
+        from markdown_it.common.normalize_url import normalizeLink
+        return normalizeLink(s).replace("&", "&amp;")
+    except BaseException:  # noqa
+        return None
+
+
+def _linkdest(ctx):
+    """the link-destination kernel: LinkParseHelper.__encode_link_destination vs Model/LinkDest.v encode_impl on every string over
+    an alphabet of specials, hex digits, a non-hex letter, a space, a sign, a quote and non-ASCII characters; then whole
+    documents whose destinations come from the same strings, rendered and compared with what `enc` demands"""
+    import html
+    import itertools
+    if "Model/LinkDest.v" not in ctx.build.ok_files:
+        return
+    alpha = ["a", "%", "2", "F", "g", " ", "\u00e9", "&", "+", '"', "\u0661", "\u20ac"]
+    n = 3 if ctx.tier == "quick" else 4
+    strs = [""] + ["".join(t) for k in range(1, n + 1) for t in itertools.product(alpha, repeat=k)]
+    strs += ["".join(t) for t in itertools.product(["%", "2", "c", "x", "&"], repeat=5)] + ["/a\U0001f600%zz%%41", "foo%20b\u00e4", "%e9%E9%eG", "a" * 40 + "%4"]
+    strs = list(dict.fromkeys(strs))
+    chunks = [strs[i:i + 500] for i in range(0, len(strs), 500)]
+    got = [r for ch in impl.pmap(_enc_call, chunks, chunksize=1) for r in ch]
+    defs = "Definition o_eqb (a b : option str) := match a, b with Some x, Some y => str_eqb x y | None, None => true | _, _ => false end.\n"
+    cases = [(core.cstr(s), f"(Some {core.cstr(r)})" if not r.startswith("EXC:") else "None") for s, r in zip(strs, got)]
+    bad = core.coq_mismatches(["PV.Base.Str", "PV.Model.LinkDest"], defs, "encode_impl", cases, "c03ld", eqb="o_eqb", shard=500)
+    ctx.corr_cases += len(cases)
+    for _ in strs:
+        ctx.count(1, "link-destination/kernel")
+    if bad:
+        want = core.coq_eval(["PV.Base.Str", "PV.Model.LinkDest"], "", [f"enc {core.cstr(strs[i])}" for i in bad[:40]], tag="c03ldw")
+        shown = 0
+        for i, w in zip(bad[:40], want):
+            model = "".join(chr(int(x)) for x in __import__("re").findall(r"\d+", w))
+            # the failing input: the reference normalisation (markdown-it's normalizeLink) sides with the model
+            if _mdit_norm(strs[i]) == model:
+                ctx.violation("link-destination", {"destination": strs[i]}, f"the destination is normalised to {got[i]!r}; the reference normalisation (Model/LinkDest.v enc = markdown-it normalizeLink) gives {model!r}", group="linkdest")
+                shown += 1
+        if not shown:
+            ctx.broke(f"model/implementation correspondence (Model/LinkDest.v encode_impl) differs on {strs[bad[0]]!r}: implementation {got[bad[0]]!r}")
+    # whole documents: inline link, angle-bracket destination, image, reference definition
+    dests = [s for s in strs if len(s) <= 3 and s and not any(c in s for c in ' "&\\<>()') and not s.startswith("%") or s in ("x%20", "/x%41", "%20", "a%2", "a%+1", "%\u06612", "\u00e9%e9")]
     if ctx.tier == "quick":
-        return {"V_leaf<=3": gen.sample(leaf, 4000, ctx.seed), "V_cont<=3": gen.sample(cont3, 4000, ctx.seed + 1), "V_cont=4": gen.sample(cont4, 3000, ctx.seed + 2), "V_cont+<=2": more, "code-spans": codes}
-    return {"V_leaf<=3": leaf, "V_cont<=3": cont3, "V_cont=4": cont4, "V_cont+<=2": more, "code-spans": codes}
+        dests = gen.sample(dests, 250, ctx.seed)
+    forms = [("[t]({})\n", '<p><a href="{}">t</a></p>'), ("[t](<{}>)\n", '<p><a href="{}">t</a></p>'), ("![i](/{})\n", '<p><img src="/{}" alt="i" /></p>'),
+             ("[t]\n\n[t]: /p{}\n", '<p><a href="/p{}">t</a></p>')]
+    docs = [(fm.format(d), d, ex) for d in dests for fm, ex in forms]
+    encs = core.coq_eval(["PV.Base.Str", "PV.Model.LinkDest"], "", [f"enc {core.cstr(d)}" for d in dests], tag="c03lde")
+    encd = {d: "".join(chr(int(x)) for x in __import__("re").findall(r"\d+", w)) for d, w in zip(dests, encs)}
+    pyh = impl.pmap(_py_html, [d[0] for d in docs], chunksize=64)
+    for (doc, d, ex), ph in zip(docs, pyh):
+        ctx.count(1, "link-destination/document")
+        ctx.seen(doc)
+        want = ex.format(encd[d])
+        if ph is None or ph.startswith("EXC:"):
+            continue
+        if cm.norm_html(ph) != want:
+            mh = _mdit(doc)
+            if cm.norm_html(mh) == want:
+                ctx.violation("link-destination", {"doc": doc}, f"PyMarkdown renders {cm.norm_html(ph)!r}; the normalisation model and markdown-it both give {want!r}", group="linkdest-doc")
+            else:
+                ctx.unit("link-destination", documents_outside_the_link_forms=1)   # the destination does not parse as one in this form (markdown-it agrees)
+    ctx.unit("link-destination", kernel_strings=len(strs), documents=len(docs))
 
 
 def run(ctx):
-    ctx.prove("Props/C03.v", ["Spec/CMBlock.v", "Proofs/CMProofs.v", "Proofs/CMFuel.v", "Proofs/CMInlineProofs.v", "Extract/Extract.v"])
+    ctx.prove("Props/C03.v", ["Spec/CMBlock.v", "Proofs/CMProofs.v", "Proofs/CMFuel.v", "Proofs/CMInlineProofs.v", "Model/LinkDest.v", "Proofs/LinkDestProofs.v", "Extract/Extract.v"])
     # ---- (0) the spec model itself: the CommonMark examples inside F, and markdown-it on a sample
     exs = [e for e in cm.spec_examples() if "\t" not in e["markdown"]]
     res = cm.cm_html_many([e["markdown"] for e in exs])
@@ -101,17 +175,19 @@ def run(ctx):
     mdiff = [docs[i] for i, mh in zip(sample, mi2) if cm.norm_html(mh) != cm.norm_html(cmres[i][1])]
     ctx.unit("spec_model_validation", markdown_it_sample=len(sample), markdown_it_differs=len(mdiff), examples=mdiff[:5], cm_wrong_in_threeway=cm_wrong)
     ctx.corr_cases += len(keep)
+    _linkdest(ctx)
     ctx.sample({"doc": docs[keep[5]], "html": cmres[keep[5]][1]})
     ctx.trusted += [
         "the spec model coq/Spec/CMBlock.v is a specification written from the CommonMark text (validated each run against the CommonMark 0.31.2 examples inside F and against the vendored markdown-it-py on a sample); it is NOT a model of PyMarkdown",
         "extraction + driver.ml; norm_html (newlines next to tags outside <pre>)",
+        "link destinations: Model/LinkDest.v encode_impl (vm_compute) vs LinkParseHelper.__encode_link_destination called directly on every string over a 12-character alphabet up to a length; whole link / image / definition documents vs the href the model demands (markdown-it asked on a difference)",
         "on a disagreement markdown-it-py is asked: only PyMarkdown-vs-(CM = markdown-it) counts as a violation with a two-party witness; CM-vs-both breaks the check (spec model at fault)",
     ]
     return ctx.finish(
         level="other",
         extra_cov={"exhaustive": ctx.tier == "thorough", "explanation": "theorems are about the spec model CM (escape safety, tag balance of its renderer, fragment membership); that PyMarkdown refines CM is decided by comparing rendered HTML on enumerated documents of the fragment F"},
-        rule="all documents of <= 3 lines over a 23-template leaf vocabulary and over a 16-template container vocabulary, 4-line container documents, 2-line documents over an extended container vocabulary, restricted to the fragment F (no tabs, no inline markup characters); quick = seed-selected subsets; non-trivial = a document of 3+ lines; distinct by document",
-        assumptions=["outside F (inline constructs, HTML blocks, link reference definitions, tabs) nothing is claimed",
+        rule="all documents of <= 3 lines over a 23-template leaf vocabulary and over a 16-template container vocabulary, 4-line container documents, 2-line documents over an extended container vocabulary, restricted to the fragment F (no tabs, no inline markup characters); the link-destination kernel on all strings of <= 4 (quick 3) characters over a 12-character alphabet + 5-character strings over 5, and link/image/definition documents built from them; quick = seed-selected subsets; non-trivial = a document of 3+ lines; distinct by document",
+        assumptions=["outside F (links apart from their destination, HTML blocks, backslash escapes, named references, tabs) nothing is claimed",
                      "documents that do not parse are C01's business"],
     )
 
